@@ -7,8 +7,8 @@ from . import common
 
 ID = "C05"
 LEVEL = "exploration"
-BUDGET = {"quick": 1600, "thorough": 40000}
-WALL_CAP = {"quick": 300, "thorough": 3000}
+BUDGET = {"quick": 30000, "thorough": 600000}
+WALL_CAP = {"quick": 600, "thorough": 5400}
 RULE = ("case = generated 2D/3D plotfile x ordered variable selection (known names in any order, optionally "
         "unknown names, or 'all') x level limit x {API, CLI} x {relative, absolute} paths, strained under a drawn "
         "SimPool schedule with poisoned np.empty; output parsed by the independent reader and tasted; "
